@@ -79,7 +79,7 @@ CLAIMED.update({
             "Exploration: 1-5 earlier queries in generated modes (abandoned, exhausted, re-asked, solve, solve_all, timed out, unknown predicate) (and rules for new predicates added to the knowledge base between queries) followed by the query under test, built with make_query or with parse_query from its text (`name(args)`, with a trailing period, bare `name` when it has no arguments); answers and output must equal those of the same query run first. In a few cases per run the caller of the final query sleeps 1.1 s between its first and second answer, so a timer left armed by any earlier solve/solve_all call (whichever way that call ended) fires while the query is live.",
             "Timed-out earlier queries are produced through start_query_timer(1)/cancel_timer (the state solve() leaves after a timeout); real 1 s timeouts are exercised by C23.", "DESIGN.md §4 C22"),
     "C23": ("oracle-checked runs over generated programs with the timer firing at a harness-chosen search step (stop_query() injected at the k-th next_solution), plus runs under the real timer thread: fast generated queries, calibrated slow queries on both sides of the 1 s limit, stray-timer rounds",
-            "Exploration: solve/solve_all results must be a prefix of the real answers, complete unless followed by the timeout message, which may only appear after >= 0.95 s; fast queries must never time out; thousands of microsecond queries ending in every possible way must not leave a timer that stops a later query; for generated programs (cut, not, and/or, built-ins) the stop flag is raised at 4 generated search steps each and solve_all / successive solve calls must still report a prefix of the answers, a timeout message only if the flag was raised, and never panic; solve_all / solve on nodes that were made before another query timed out must not report a timeout; asking a timed-out node again needs another second before it may say timeout again.",
+            "Exploration: solve/solve_all results must be a prefix of the real answers, complete unless followed by the timeout message, which may only appear after >= 0.95 s; fast queries must never time out; thousands of microsecond queries ending in every possible way must not leave a timer that stops a later query; for generated programs (cut, not, and/or, built-ins) the stop flag is raised at 4 generated search steps each and solve_all / successive solve calls must still report a prefix of the answers, a timeout message only if the flag was raised, and never panic; solve_all / solve on nodes that were made before another query timed out must not report a timeout; asking a timed-out node again (after real and after injected timeouts) may only yield the timeout message after another second, `No more.`, or one of the query's answers.",
             "The real timer thread's interleavings are sampled by real time; the injected-stop class owns the schedule at the granularity of next_solution entries (the only places the engine reads the flag are behind them). Overloaded-machine timings are counted as inconclusive discards.", "DESIGN.md §4 C23"),
     "C24": ("generated programs and call histories (proptest) replayed through the public API under Miri as the undefined-behaviour detector (Stacked Borrows, data races, out-of-bounds, use-after-free)",
             "Exploration: about 100 (quick) / 800 (thorough) generated histories - enumerate and re-ask, solve_all + solve, abandoned query + second query, parse + solve, timer firing during a search, a cut executing underneath not(...)/time(...), loading the program from a file, adding rules for new predicates between two runs of a query, one-rule programs from the C16/C17 list built-in generators - executed under Miri in 16 parallel processes; any Undefined Behavior diagnostic is a violation identified by diagnostic kind and source location. The shallowest check of the set: hundreds of histories, not millions.",
